@@ -22,7 +22,7 @@ import vlib
 PROP = "C17"
 SPEC_DIR = os.path.join(vlib.SPEC, "matrix")
 BIN_OPS = ("add", "sub", "add_assign", "sub_assign", "sub_assign_ref")
-SC2_DEFAULTS = {"op2": "none", "i2": 0, "j2": 0, "s2": 0, "ckind": "F", "cml": 0, "cmu": 0, "cpat": "zero"}
+SC2_DEFAULTS = {"op2": "none", "i2": 0, "j2": 0, "s2": 0, "ckind": "F", "cml": 0, "cmu": 0, "cpat": "zero", "pf": 0}
 CHUNK = 3000           # scenarios per trace-validation TLC run
 PARALLEL = 6
 
@@ -39,6 +39,10 @@ ASSUMPTIONS = [
     "the harness (replay_matrix.rs) only calls the public API, catches panics and converts f64 -> code of the graded number it equals exactly "
     "(any other value becomes a sentinel that fails the contract)",
     "swap_rows and fill are modelled at Level B only (not part of C17's statement): mismatches there are counted as drift",
+    "prefilled scenarios (sc.pf != 0): a Full / Banded operand is first handed to the public Matrix::fill(pf), which also sets the cells of "
+    "the band buffer that belong to no entry, and then EVERY writable entry is written; the result of fill itself is not judged, the dense "
+    "meaning after the writes is what the code's readable entries show (write clause), and every observer is judged against it; Identity "
+    "operands are never prefilled (fill on an Identity changes what its entries read as, which C17 does not cover)",
     "TLC and the CommunityModules Json/IOUtils modules are trusted",
 ]
 
@@ -248,6 +252,8 @@ def run(tier, seed, replay, keep, mutate=None):
         per_pair = collections.Counter(_storage_tag(s["sc"]) + s["sc"]["bkind"] for s in scen if s["sc"]["op"] in BIN_OPS)
         per_op2 = collections.Counter(s["sc"]["op"] + ">" + s["sc"]["op2"] for s in scen if s["sc"]["op2"] != "none")
         per_n = collections.Counter(str(s["sc"]["n"]) for s in scen)
+        per_pf = collections.Counter(s["sc"]["op"] + (">" + s["sc"]["op2"] if s["sc"]["op2"] != "none" else "")
+                                     for s in scen if s["sc"].get("pf", 0) != 0)
         panics = sum(1 for s in scen if s["expect"]["panic"])
         pick = [scen[(seed * 7919 + k * len(scen) // 3) % len(scen)] for k in range(3)]
         samples = [{"scenario": p["sc"], "writes_A": p["wsA"], "writes_B": p["wsB"], "expected_dense_result": p["expect"]["res"],
@@ -260,6 +266,7 @@ def run(tier, seed, replay, keep, mutate=None):
             "per_action": dict(per_op), "per_constructor": dict(per_ctor), "per_storage_pair": dict(per_pair),
             "two_operation_sequences": sum(per_op2.values()), "per_two_operation_sequence": dict(per_op2),
             "per_size": dict(per_n), "scenarios_expecting_panic": panics,
+            "prefilled_scenarios": sum(per_pf.values()), "per_prefilled_observer": dict(per_pf),
             "contract_failures_on_impl": len(viol), "known_findings_matched": n_known,
             "exhaustive": True,
             "rule": "TLC enumerates every scenario of MC_Matrix (" + cfg + "): size x constructor x (ml,mu) in 0..n x fill pattern x "
@@ -267,7 +274,10 @@ def run(tier, seed, replay, keep, mutate=None):
                     "zeros, squares or (small sizes) multiples of 2^-80 / "
                     "scalar op with scalars -1,0,1,2,2^-80,-2^-80,2^80 / is_identity / swap_rows / fill), plus two-operation sequences (first: every scalar "
                     "op x scalar or binary op; second, on the result: is_identity / write at every (i,j) + read-all / scalar op / "
-                    "binary op with a fresh Identity, Full or Banded operand), the contract being evaluated after EACH step; each scenario is one behaviour of the "
+                    "binary op with a fresh Identity, Full or Banded operand), plus prefilled scenarios (Matrix::fill(5 or 2^-80) on the whole buffer of "
+                    "every Full / Banded operand, all writable entries then written with the zero / identity / distinct pattern, observed by "
+                    "read-all, is_identity, a further write, every scalar op, every binary op x storage of a prefilled second operand, and "
+                    "component_mul[_mut] followed by every second operation), the contract being evaluated after EACH step; each scenario is one behaviour of the "
                     "model, is replayed on the real Matrix API and its recorded trace is validated by TLC against Trace_Matrix",
         }
         vlib.write_evidence(PROP, tier, seed, "model_checking", cov, ASSUMPTIONS, time.time() - t_start, n_new)
